@@ -4,8 +4,8 @@ From HV Require Import Prelude Tracts C01_Model C14_Model C03_Model C03_Check C1
 Lemma nodupb_sound l : nodupb l = true -> NoDup l.
 Proof.
   induction l as [|x r IH]; cbn [nodupb]; intros H; [constructor|].
-  apply andb_true_iff in H. destruct H as [H1 H2]. constructor; [|auto].
-  intros Hin. apply negb_true_iff in H1.
+  destruct (existsb (Z.eqb x) r) eqn:H1; [discriminate|]. constructor; [|auto].
+  intros Hin.
   assert (existsb (Z.eqb x) r = true) by (apply existsb_exists; exists x; split; [exact Hin|apply Z.eqb_refl]).
   congruence.
 Qed.
@@ -368,11 +368,157 @@ Lemma holds_cli_sound k :
   holds_cli k = true ->
   holds_params (c_p k) = true /\
   (insufficient (c_p k) = true -> c_sim k = false /\ c_wrote k = false) /\
-  (forall o, c_o k = Some o -> holds_norep o = true).
+  (forall o, c_o k = Some o -> holds_norep o = true /\ holds_norep_smp o = true).
 Proof.
   unfold holds_cli. intros H. apply andb_true_iff in H. destruct H as [H H3].
   apply andb_true_iff in H. destruct H as [H1 H2]. split; [exact H1|]. split.
   - intros I. rewrite I in H2. cbn [negb orb] in H2. apply andb_true_iff in H2. destruct H2 as [A B].
     apply negb_true_iff in A. apply negb_true_iff in B. split; assumption.
-  - intros o Ho. rewrite Ho in H3. exact H3.
+  - intros o Ho. rewrite Ho in H3. unfold holds_norep_all in H3. apply andb_true_iff in H3. exact H3.
 Qed.
+
+(* ---- provenance named by the SAMPLE field (wide panels) ---------------------------------- *)
+
+Lemma nodup_keys_sound l :
+  nodup_keys l = true ->
+  forall i j x, (i < j)%nat -> nth_error l i = Some (Some x) -> nth_error l j = Some (Some x) -> False.
+Proof.
+  induction l as [|y r IH]; intros H i j x Hij Hi Hj.
+  - destruct i; discriminate.
+  - destruct j as [|j]; [lia|]. cbn [nth_error] in Hj. destruct i as [|i]; cbn [nth_error] in Hi.
+    + inversion Hi; subst y. cbn [nodup_keys] in H. apply andb_true_iff in H. destruct H as [H _].
+      apply negb_true_iff in H.
+      assert (E : existsb (key_is x) r = true).
+      { apply existsb_exists. exists (Some x). split; [eapply nth_error_In; eauto|].
+        unfold key_is, pair_eqb. rewrite !Z.eqb_refl. reflexivity. }
+      congruence.
+    + assert (Hr : nodup_keys r = true).
+      { destruct y as [y|]; cbn [nodup_keys] in H; [|exact H]. apply andb_true_iff in H. apply H. }
+      apply (IH Hr i j x); [lia|exact Hi|exact Hj].
+Qed.
+
+Lemma nth_error_seq' : forall n s i, (i < n)%nat -> nth_error (seq s n) i = Some (s + i)%nat.
+Proof.
+  induction n as [|n IH]; intros s i Hi; [lia|]. destruct i as [|i]; cbn [seq nth_error].
+  - rewrite Nat.add_0_r. reflexivity.
+  - rewrite IH by lia. f_equal. lia.
+Qed.
+
+Lemma src_key_some d v g s r a :
+  src_key d v g s = Some (r, a) ->
+  g = Some a /\ s = Some r /\
+  exists row a0 a1, nthZ d r = Some row /\ nthZ row v = Some (a0, a1) /\ a0 <> a1 /\ (a = a0 \/ a = a1).
+Proof.
+  unfold src_key. destruct g as [a'|]; [|discriminate]. destruct s as [r'|]; [|discriminate].
+  destruct (nthZ d r') as [row|] eqn:E1; [|discriminate].
+  destruct (nthZ row v) as [[a0 a1]|] eqn:E2; [|discriminate].
+  destruct (negb (a0 =? a1) && ((a' =? a0) || (a' =? a1))) eqn:E3; [|discriminate].
+  intros H; inversion H; subst. split; [reflexivity|]. split; [reflexivity|].
+  exists row, a0, a1. apply andb_true_iff in E3. destruct E3 as [N O]. apply negb_true_iff, Z.eqb_neq in N.
+  apply orb_true_iff in O. rewrite !Z.eqb_eq in O. auto.
+Qed.
+
+Lemma src_key_intro d v r a row a0 a1 :
+  nthZ d r = Some row -> nthZ row v = Some (a0, a1) -> a0 <> a1 -> a = a0 \/ a = a1 ->
+  src_key d v (Some a) (Some r) = Some (r, a).
+Proof.
+  intros E1 E2 N O. unfold src_key. rewrite E1, E2.
+  replace (negb (a0 =? a1) && ((a =? a0) || (a =? a1))) with true; [reflexivity|].
+  symmetry. apply andb_true_iff. split.
+  - apply negb_true_iff, Z.eqb_neq. exact N.
+  - apply orb_true_iff. rewrite !Z.eqb_eq. exact O.
+Qed.
+
+(* holds_norep_smp = true: at no written record do two simulated haplotypes name the same reference
+   sample in SAMPLE and show the same allele, when that sample's two haplotypes carry different
+   alleles there - i.e. no reference haplotype was copied twice at that record.  No assumption on
+   the rest of the panel. *)
+Lemma holds_norep_smp_sound k out sm :
+  holds_norep_smp k = true -> o_obs k = Ok out -> g_norep (o_cfg k) = true -> o_smp out = Some sm ->
+  forall j v, nth_error (o_vars out) j = Some v ->
+  forall h h', (h < h' < length (o_gt out))%nat ->
+  forall r a row a0 a1,
+    cellz (o_gt out) h j = Some a -> cellz (o_gt out) h' j = Some a ->
+    cellz sm h j = Some r -> cellz sm h' j = Some r ->
+    nthZ (g_data (o_cfg k)) r = Some row -> nthZ row v = Some (a0, a1) -> a0 <> a1 -> (a = a0 \/ a = a1) ->
+    False.
+Proof.
+  unfold holds_norep_smp. intros H Ho Hn Hs j v Hj h h' Hh r a row a0 a1 G1 G2 S1 S2 E1 E2 N O.
+  rewrite Ho, Hn, Hs in H. cbn [negb orb] in H. rewrite forallb_forall in H.
+  specialize (H (j, v) (number_nat_In' (o_vars out) 0%nat j v Hj)). cbn [fst snd] in H.
+  apply (nodup_keys_sound _ H h h' (r, a)); [lia| |].
+  - unfold keys_at. rewrite nth_error_map, nth_error_seq' by lia. cbn [option_map]. rewrite Nat.add_0_l.
+    rewrite G1, S1. f_equal. eapply src_key_intro; eauto.
+  - unfold keys_at. rewrite nth_error_map, nth_error_seq' by lia. cbn [option_map]. rewrite Nat.add_0_l.
+    rewrite G2, S2. f_equal. eapply src_key_intro; eauto.
+Qed.
+
+Lemma holds_norep_all_sound k :
+  holds_norep_all k = true -> holds_norep k = true /\ holds_norep_smp k = true.
+Proof. unfold holds_norep_all. intros H. apply andb_true_iff in H. exact H. Qed.
+
+(* ---- labels beyond 255: the wrapper is C03's model when no tract carries such a label ------ *)
+
+Lemma take_chrom_incl c l : incl (take_chrom c l) l.
+Proof.
+  induction l as [|s r IH]; cbn [take_chrom]; [apply incl_refl|].
+  destruct (chrom s =? c); [|apply incl_nil_l].
+  intros x [->|Hx]; [left; reflexivity|right; apply IH, Hx].
+Qed.
+
+Lemma skipn_incl {A} n (l : list A) : incl (skipn n l) l.
+Proof.
+  revert l. induction n as [|n IH]; intros l; [apply incl_refl|].
+  destruct l as [|x r]; [apply incl_refl|]. cbn [skipn]. intros y Hy. right. apply IH, Hy.
+Qed.
+
+Lemma segs_of_incl c hap : incl (segs_of c hap) hap.
+Proof. unfold segs_of. intros x Hx. eapply skipn_incl, take_chrom_incl, Hx. Qed.
+
+Definition narrow_labels (hap : list seg) : Prop := forall s, In s hap -> pop s <= 255.
+
+Lemma hap_chrom_w_eq norep npop d hap c cv st :
+  narrow_labels hap -> hap_chrom_w norep npop d hap c cv st = hap_chrom false norep npop d hap c cv st.
+Proof.
+  intros N. unfold hap_chrom_w.
+  replace (existsb wide_label (segs_of c hap)) with false; [reflexivity|].
+  symmetry. apply not_true_is_false. intros E. apply existsb_exists in E. destruct E as [s [Hs W]].
+  unfold wide_label in W. apply Z.ltb_lt in W. specialize (N s (segs_of_incl c hap s Hs)). lia.
+Qed.
+
+Lemma hap_loop_w_eq norep npop d cur_chr ov hap : narrow_labels hap -> forall chroms arr st,
+  hap_loop_w norep npop d cur_chr ov hap chroms arr st = hap_loop false norep npop d cur_chr ov hap chroms arr st.
+Proof.
+  intros N. induction chroms as [|c cs IH]; intros arr st; cbn [hap_loop_w hap_loop]; [reflexivity|].
+  rewrite hap_chrom_w_eq by exact N.
+  destruct (hap_chrom false norep npop d hap c (cvars_of cur_chr c ov) st) as [[ws st']|e]; cbn [bind]; [apply IH|reflexivity].
+Qed.
+
+Lemma haps_loop_w_eq norep npop d cur_chr ov chroms : forall bps st,
+  (forall hap, In hap bps -> narrow_labels hap) ->
+  haps_loop_w norep npop d cur_chr ov chroms bps st = haps_loop false norep npop d cur_chr ov chroms bps st.
+Proof.
+  induction bps as [|hap r IH]; intros st N; cbn [haps_loop_w haps_loop]; [reflexivity|].
+  unfold output_hap. rewrite hap_loop_w_eq by (apply N; left; reflexivity).
+  destruct (hap_loop false norep npop d cur_chr ov hap chroms (repeat None (length ov)) st) as [[arr st']|e];
+    cbn [bind]; [|reflexivity].
+  rewrite IH by (intros h Hh; apply N; right; exact Hh). reflexivity.
+Qed.
+
+(* with at most 255 source populations in use (labels 0..255) the model of the norep relation IS C03's model *)
+Lemma output_vcf_w_eq c :
+  (forall hap, In hap (g_bps c) -> forall s, In s hap -> pop s <= 255) -> output_vcf_w c = output_vcf c.
+Proof.
+  intros N. unfold output_vcf_w, output_vcf.
+  destruct (negb (lenZ (g_tab c) =? g_npop c - 1)); [reflexivity|].
+  destruct (read_vars (g_region c) (g_vars c)) as [|[i v0] rd]; [reflexivity|].
+  rewrite haps_loop_w_eq by exact N. reflexivity.
+Qed.
+
+(* ... and a label beyond 255 on the first chromosome converted stops the call (numpy's OverflowError)
+   unless drawing the chromosome's blocks already failed; nothing is written *)
+Example overflow_example :
+  let hap := [mkseg 256 1 2147483647 0] in
+  hap_chrom_w true 300 [[(0, 1)]] hap 1 [] (mkds [(256, [0])] [[]; []] [] [] [[0]]) = Err E_Overflow /\
+  hap_chrom_w true 300 [[(0, 1)]] hap 1 [] (mkds [(256, [])] [[]; []] [] [] []) = Err E_Exception.
+Proof. vm_compute. split; reflexivity. Qed.
